@@ -507,12 +507,14 @@ def run(ctx):
         for x in walk(rb):
             if x.get('kind') in ('BinaryOperator', 'CompoundAssignOperator') and x.get('opcode') in ('=', '+=') and '*' in (dtype(x['inner'][0]) or '') and ref_decl(x['inner'][0]):
                 advs.append(x)
-        loops = [x for x in walk(rb) if x.get('kind') == 'WhileStmt']
+        loops = [x for x in walk(rb) if x.get('kind') in ('WhileStmt', 'ForStmt', 'DoStmt')]
         adv_vars = {ref_decl(a['inner'][0])['id'] for a in advs if any(a in list(walk(lp)) for lp in loops)}
         okc = all(d is not None for d in dsts) and len({d['id'] for d in dsts if d}) == 1 and ({d['id'] for d in dsts if d} == adv_vars or not loops)
         ctx.check(okc, R, 'random_data|single-destination-cursor', copies[-1], 'every copy writes through the cursor that the refill loop advances',
                   'copies write through %s while the loop advances %s: after a refill the remaining bytes land at the wrong place and part of the request is never written' % (sorted({(d or {}).get('name', '?') for d in dsts}), sorted({(unit_name(a)) for a in advs})))
-        if loops:
+        if loops and loops[0].get('kind') != 'WhileStmt':
+            ctx.undecided(R, 'random_data|refill-accounting', loops[0], 'the refill loop is not a `while (pool < request)` loop (its exit is a break inside the body): the accounting order is not decided by this rule')
+        elif loops:
             lp = loops[0]
             lcopy = [c for c in copies if any(c is y for y in walk(lp))]
             okl = len(lcopy) == 1
